@@ -542,7 +542,13 @@ def r11_control_messages_lossless(ctx, F, rule='C05-R11'):
         for h in heads:
             some = nb.branch(h, 'Some')
             r = nb.reach([e[1] for e in some], cut_blocks=[c.bb]) if some else {h.bb}
-            if h.bb not in r:
+            # ... and the walk over the channels ends only when they are exhausted: no turn leaves it early (an
+            # `any(..)` that stops at the first successful send reaches one worker only)
+            body_ = nb.reach([e[1] for e in some], cut_blocks=[h.bb]) if some else set()
+            outer = [h2 for h2 in nb.calls_to('Iterator::next', 'Receiver::recv') if h2 is not h and
+                     nb.in_cycle(h2.bb) and nb.dominates(h2.bb, h.bb)]
+            early = any(x in body_ for x in nb.returns) or any(h2.bb in body_ for h2 in outer)
+            if h.bb not in r and not early:
                 ok = True
     if not ok:
         # `channels.retain(|s| s.send(msg).is_ok())`: retain calls the closure once for every element, in order;
